@@ -132,6 +132,21 @@ CLAIMS = {
    note=NOTE + "C01: two narrow known findings recorded (pixel renderer: sub-pixel minor axis reaching outside the oversampled box; hybrid: 3.5<n<=4 truncated by a near edge exceeds the tight band slightly).",
    technique="Lean 4 theorems (DFT DC theorem via roots of unity, scene totals, reduction of the Fourier flux clause to 1-D, Gamma-integral normalisation) + render/table correspondence + numerical residual with the property's bands",
    design="7/C01"),
+ "C20": dict(
+   text=("Proof (all N, all admissible option values) for the structural clauses: the pixel renderer's oversampled set is exactly "
+         "rows/columns [N/2−os, N/2+os) (floor division, clipped at N; 2·os wide for os ≤ N/2; empty for os = 0) for even and odd N; outside it a "
+         "pixel holds the centre-sampled profile, inside it the quadrature sum Σ w_i w_j·profile(X+d_j, Y+d_i); a rule with Σw = 1 reproduces a "
+         "locally flat profile for every order; the hybrid renderer's Fourier and real parts partition the component list, the real part being "
+         "the num_pixel_render widest (broadened) components; with num_pixel_render = 0 the hybrid triple is identical to the Fourier renderer's "
+         "(exactly, every parameter value); point sources never depend on that choice; interpolated and direct amplitudes sit on the same σ grid, "
+         "which runs from r_eff·frac_start to r_eff·frac_end; the regenerated defaults are admissible. Not proved (quantitative convergence between "
+         "option settings): observed on the real code with the property's tolerances — outside pixels vs the point-sampled kernel (1e-6) and an "
+         "independent float64 formula, inside pixels vs an independent 40-point float64 pixel integration (2e-5, num_os ≥ 3), hybrid vs Fourier "
+         "(6e-3; exactly 0 for num_pixel_render = 0), n_sigma 15/20/30 (5e-3), interpolated vs direct amplitudes at tabulated indices (1e-3, float64). "
+         "Tie: render correspondence over the whole option space, including the Lean model of the direct decomposition (use_interp_amps=False)."),
+   note=NOTE + "C20: leggauss data enter as parameters (Σw = 1 checked on the real data); direct amplitudes compared in float64 only.",
+   technique="Lean 4 theorems (box membership by omega, class of each pixel, list partition of the hybrid split, hybrid(0)=Fourier, σ-grid end points) + option-space render correspondence + numerical oracle with the property's tolerances",
+   design="7/C20"),
 }
 
 checks, na = [], []
